@@ -75,6 +75,11 @@ impl R {
 #[derive(Clone, Debug, PartialEq, Eq)]
 enum Ev {
     Req(R),
+    /// a fragment that is answered with an error indication but is not a request (its header does
+    /// not parse: unknown function code), so the last request before it is still the one a
+    /// retransmission refers to. (A request with a valid header and unparsable objects *is* a
+    /// request; the library remembers it like any other.)
+    Bad(u8),
     Repeat,
     SolConfirm(bool),
     UnsConfirm,
@@ -107,6 +112,7 @@ fn all_requests() -> Vec<R> {
 fn alphabet(reqs: &[R], reconnect: bool) -> Vec<Ev> {
     let mut v: Vec<Ev> = Vec::new();
     v.push(Ev::Repeat);
+    v.push(Ev::Bad(0));
     for r in reqs {
         v.push(Ev::Req(*r));
     }
@@ -197,10 +203,16 @@ impl Scenario for C05 {
             let ev = &self.alphabet[i];
             let mut sent_now: Option<Vec<u8>> = None;
             let mut is_repeat = false;
+            let mut is_bad = false;
             match ev {
                 Ev::Req(r) => {
                     last_seq = (last_seq + 1) & 0x0F;
                     sent_now = Some(r.fragment(last_seq));
+                }
+                Ev::Bad(k) => {
+                    last_seq = (last_seq + 1) & 0x0F;
+                    sent_now = Some(if *k == 0 { app::request(last_seq, 0x70, &[]) } else { app::request(last_seq, fc::READ, &[0xFF]) });
+                    is_bad = true;
                 }
                 Ev::Repeat => {
                     if let Some(f) = &last_req {
@@ -321,6 +333,9 @@ impl Scenario for C05 {
                         break;
                     }
                 }
+            } else if is_bad {
+                // answered, but not a request whose answer is remembered: a later Repeat still
+                // refers to the last valid request
             } else if let Some(f) = &sent_now {
                 // fresh request: remember the solicited replies it got in this step
                 let seq = f[0] & 0x0F;
